@@ -34,13 +34,18 @@ CLAIMED = {
              "everything produced is in the transport's log, NOTHING is owed for bytes already received (R .. [] = []), the replies still owed "
              "are exactly those of bytes the client has not delivered, and no stream data is withheld; between requests "
              "(C08_parse_request_deadlock, C08_read_after_flush) every reply of every parse call so far is completely written before the read; "
-             "while skipping in close() (C08_record_boundary_deadlock) a suspension happens only strictly inside an unfinished record. The final "
-             "step 'hence a peer that sends whole records and waits always receives the result' is the composition of these with the peer "
-             "assumption and is decided end to end by the correspondence check: closed-loop gated clients with queries before / between / inside "
+             "while skipping in close() (C08_record_boundary_deadlock) a suspension happens only strictly inside an unfinished record. The "
+             "'Hence' part is proved per read, counted the way the waiting peer counts (complete EndRequest / GetValuesResult / UnknownType "
+             "records received): C08_counts_additive, C08_replies_are_whole_records, C08_read_block_counts - a handler read that ends up "
+             "waiting has put into the log EXACTLY the replies the specification owes for the bytes received during it - and "
+             "C08_peer_read_never_deadlocks: if every gate of the client asks for no more than what is already in the log plus the replies "
+             "owed for the bytes it sent before, a handler read NEVER ends in the wait-for cycle, for every readiness pattern; "
+             "C08_parse_request_block_counts is the counted form between requests. The composition over a whole connection (several "
+             "requests, handler output in between) is decided end to end by the correspondence check: closed-loop gated clients with queries before / between / inside "
              "requests and in the same read as a request's end, on an executor that re-polls only on wake. Defects F1 and F2 found here are "
              "repaired in /repo (1a75639, fd29a7b); their replays are in corpus/C08 and run first.",
         design="6/C08, 13.3", technique="Coq proof (totality + reply accounting at every suspension point of the connection model) + differential execution with closed-loop gated clients on a wake-only executor",
-        note="the liveness conclusion for the (P)-peer is composed informally from the proved suspension-point lemmas and checked by correspondence; executor/waker protocol modelled by contract."),
+        note="no-deadlock for the (P)-peer is proved per handler read and counted per parse_request; its composition over a whole connection (global record accounting of the log across requests) is by correspondence; executor/waker protocol modelled by contract."),
     "C09": dict(
         text="Proof on the connection model: C09_poll_input / C09_await_input - for ONE poll or awaited read with any caller buffer (read into c bytes, "
              "fill_buf), any transport read/write behaviour and pending parser output: with dl the bytes handed over, K(before)(remaining) = dl "
